@@ -248,7 +248,7 @@ fn evaluates(focus: F2, f: &L2Finding, d: &FnDesc, mem_evicted: bool) -> bool {
     let c = f.clause;
     match focus {
         F2::C01 => matches!(c, "ret-value" | "value" | "hit-absent" | "stale-store" | "body-ran-twice" | "stale-after-oversize-store"),
-        F2::C03 => matches!(c, "miss-present" | "body-ran-twice" | "hit-absent" | "count" | "get-changed-store"),
+        F2::C03 => matches!(c, "miss-present" | "body-ran-twice" | "hit-absent" | "count" | "get-changed-store" | "not-stored"),
         F2::C04 => match c {
             "bound" | "count" | "get-changed-store" => true,
             "miss-present" | "hit-absent" => d.ttl.is_none(),
@@ -267,9 +267,9 @@ fn evaluates(focus: F2, f: &L2Finding, d: &FnDesc, mem_evicted: bool) -> bool {
             _ => false,
         },
         F2::C08 => c == "order",
-        F2::C09 => matches!(c, "err-cached" | "miss-present" | "hit-absent" | "stored-unexpectedly" | "ret-value"),
-        F2::C10 => matches!(c, "cif-protocol" | "rejected-cached" | "miss-present" | "hit-absent" | "stored-unexpectedly" | "err-cached"),
-        F2::C11 => matches!(c, "inv-protocol" | "stale-served" | "valid-recomputed" | "value" | "ret-value" | "miss-present" | "hit-absent" | "stale-survived-refresh"),
+        F2::C09 => matches!(c, "err-cached" | "miss-present" | "hit-absent" | "stored-unexpectedly" | "ret-value" | "not-stored"),
+        F2::C10 => matches!(c, "cif-protocol" | "rejected-cached" | "miss-present" | "hit-absent" | "stored-unexpectedly" | "err-cached" | "not-stored"),
+        F2::C11 => matches!(c, "inv-protocol" | "stale-served" | "valid-recomputed" | "value" | "ret-value" | "miss-present" | "hit-absent" | "stale-survived-refresh" | "not-stored"),
         F2::C12 => matches!(c, "registry-count" | "registry-count-group" | "registry-not-emptied" | "inv-precise" | "hit-absent" | "miss-present" | "no-listing"),
         F2::C13 => matches!(c, "inv-exact" | "inv-precise" | "registry-count" | "bound" | "count" | "order" | "mem-bound" | "mem-count" | "miss-present" | "hit-absent" | "no-listing"),
         F2::C15 => c == "stats",
